@@ -69,6 +69,25 @@ def run(ctx):
             n, sk = race_events(o, ot)
             ctx.extra["race_reports"] = ctx.extra.get("race_reports", 0) + n
         ctx.validate("OwnershipTrace", ot, keyfn, describe=describe, timeout=3000, require_events=100 if mode not in ("fault", "life") else 1)
+    if race:
+        # the QUIC transport under the race detector: its scenario run and the gate-scheduled replay of
+        # QuicXport's state graph (every interleaving of the model, stepped through the real code)
+        import qpaths, random
+        r, states, adj, init, skipped = qpaths.build()
+        paths = qpaths.cover(states, adj, init, seed=ctx.seed)
+        random.Random(ctx.seed).shuffle(paths)
+        pf = ctx.path("qpaths.json")
+        qpaths.write(pf, states, init, paths[:6000])
+        for mode, extra in (("quic", ["-n", 12]), ("qreplay", ["-n", 5000, "-in", pf])):
+            t = ctx.path("x-%s.ndjson" % mode)
+            o = ctx.driver(xdrv, ["-mode", mode, "-out", t] + extra, timeout=3000, ok_codes=(0, 66),
+                           env={"GORACE": "halt_on_error=0 exitcode=0"})
+            ot = ctx.path("race-%s.ndjson" % mode)
+            n, sk = race_events(o, ot)
+            ctx.extra["race_reports"] = ctx.extra.get("race_reports", 0) + n
+            ctx.extra["harness_only_race_reports"] = ctx.extra.get("harness_only_race_reports", 0) + sk
+            if n:
+                ctx.validate("OwnershipTrace", ot, keyfn, describe=describe, timeout=600, require_events=1)
     ctx.assumptions += [
         "TLA+ decides the ownership discipline of recycled objects from get / release / poison events; 'free of data races' on arbitrary memory is judged by the Go race detector (thorough tier), used as a sensor whose reports become trace events without a specification action",
         "normal get/release events are recorded for 1 in 16 objects (typestate per object is independent); anomalies found by the pool hook (release of a buffer not held, broken poison at quarantine exit, a held buffer handed out) are always recorded",
